@@ -20,4 +20,4 @@ hprop.install(globals(), hprop.HistoryProperty(
     ],
     quick=(16, 50, 40), thorough=(16, 1200, 70), probes=True, retains=True,
 ))
-FLOORS = {"quick": {"retained_state_checks": 5000, "branches": 300}, "thorough": {"branches": 5000}}
+FLOORS = {"quick": {"retained_state_checks": 4000, "branches": 190}, "thorough": {"branches": 5000}}
